@@ -461,6 +461,30 @@ func c19HostileInput(rec *vlib.Rec, r *rand.Rand) ([]byte, string) {
 	case 1:
 		a, b := c19GenMsg(rec, r), c19GenMsg(rec, r)
 		return gen.C19Splice(r, a.ref, b.ref), "splice"
+	case 2:
+		// ROUTE_MONITORING whose UPDATE carries one path attribute (every type code in turn) with a
+		// too-short value: the class for which ParseBMPMessage hands back the message *and* an error
+		g := &c19Gen{}
+		_, ph, _ := c19PeerHeader(r, g)
+		attrs := []byte{0x40, 1, 1, 0, 0x40, 2, 0, 0x40, 3, 4, 192, 0, 2, 1} // ORIGIN, empty AS_PATH, NEXT_HOP
+		t := byte(1 + r.IntN(45))
+		l := r.IntN(6)
+		bad := append([]byte{[]byte{0xc0, 0x80, 0x40, 0xe0}[r.IntN(4)], t, byte(l)}, c19Bytes(r, l)...)
+		if r.IntN(2) == 0 {
+			attrs = append(attrs, bad...)
+		} else {
+			attrs = append(bad, attrs...)
+		}
+		upd := append([]byte{0, 0}, byte(len(attrs)>>8), byte(len(attrs)))
+		upd = append(upd, attrs...)
+		upd = append(upd, 24, 10, 1, 2) // NLRI 10.1.2.0/24
+		msg := append(bytes.Repeat([]byte{0xff}, 16), byte((19+len(upd))>>8), byte(19+len(upd)), 2)
+		msg = append(msg, upd...)
+		out := []byte{3, 0, 0, 0, 0, 0}
+		out = append(out, ph...)
+		out = append(out, msg...)
+		binary.BigEndian.PutUint32(out[1:], uint32(len(out)))
+		return out, fmt.Sprintf("rm-short-attr-%d", t)
 	default:
 		g := c19GenMsg(rec, r)
 		in, kind := gen.C19Mutate(r, g.ref, g.fields)
